@@ -32,7 +32,7 @@ def load_known(prop):
 
 
 def write_replay(prop, failure, tag="") -> str:
-    d = os.path.join(VERIF_DIR, "replays", prop)
+    d = os.path.join(os.environ.get("VERIF_REPLAY_DIR") or os.path.join(VERIF_DIR, "replays"), prop)
     os.makedirs(d, exist_ok=True)
     name = f"{failure['subcheck']}-{fingerprint([failure['signature'], failure['case']])}.json"
     path = os.path.join(d, name)
@@ -170,8 +170,9 @@ def run(prop, tier, seed, nworkers, only=None):
         "violations": len(by_sig),
         "harness_errors": errors[:5],
     }
-    os.makedirs(os.path.join(VERIF_DIR, "evidence"), exist_ok=True)
-    with open(os.path.join(VERIF_DIR, "evidence", f"{prop}.json"), "w") as fh:
+    evdir = os.environ.get("VERIF_EVIDENCE_DIR") or os.path.join(VERIF_DIR, "evidence")
+    os.makedirs(evdir, exist_ok=True)
+    with open(os.path.join(evdir, f"{prop}.json"), "w") as fh:
         json.dump(evidence, fh, indent=1, sort_keys=True)
         fh.write("\n")
 
